@@ -13,8 +13,8 @@ INFO = {
     "bounds": "numeric parts 0..120 (quick) / 0..12000 (thorough), years 1000..9999 (two-digit-year parts 2001..2099), months 1..12, "
               "weeks 0..53, BUILD 1000..9998, every tag x every --tag value, all 2^6 boolean flags; today's calendar fields independent "
               "symbolic values in their domains (over-approximation); patterns: see samples",
-    "outside": "full-date patterns (YYYY.MM.DD, YYYY.JJJ: the reader derives every calendar field from the date; covered at bump level by "
-               "C14-L4 only); BUILD ids outside 1000..9998 (C17); parts > 12000; GITHASH/HEXHASH",
+    "outside": "full-date patterns (YYYY.MM.DD, YYYY.JJJ): numeric step, --tag-num guard and result stage are in both tiers, their "
+               "calendar stage only in the thorough tier (10 min per query; C14-L4 shows the real _is_cal_gt is the date order); BUILD ids outside 1000..9998 (C17); parts > 12000; GITHASH/HEXHASH",
     "stubs": ["v2version.cal_info -> symbolic today", "string seams of incr in guards_step: parse_version_info -> symbolic old state, "
               "format_version -> Rendered(state) with the contract 'equal iff states agree on the pattern's parts, empty iff all parts "
               "zero' (C02); _incr_numeric recorded in guards_step (its contract is numeric_step)"],
@@ -26,7 +26,8 @@ KEY_PIN_WEEK0 = "C05:--pin-date when the current week number (WW/0W/UU/0U) is 0"
 KEY_FINAL_TAGNUM = "C05:--tag final together with --tag-num"
 
 QUICK = ["MAJOR.MINOR.PATCH[PYTAGNUM]", "YYYY.MM[.INC0]", "YY.0M.INC1", "vYYYY.WW[-TAGNUM]", "YYYY.BUILD[-TAG]"]
-THOROUGH = [p for p in grammar.G_DOC if grammar.info(p)["flavour"] != "fulldate"]
+THOROUGH = list(grammar.G_DOC)
+QUICK = QUICK + ["YYYY.MM.DD"] if "YYYY.MM.DD" not in QUICK else QUICK
 
 
 def validations(tier):
@@ -57,6 +58,12 @@ def wrapper(kind, pattern, hi, fixed, ranges_override=None):
     rng.update(ranges_override or {})
     has_tag = "tag" in fs or "pytag" in fs
     calf = [f for f in rm.CAL_FIELDS if f in fs]
+    fulldate = g["flavour"] == "fulldate"
+    if fulldate:
+        # the reader reconstructs the date: the symbolic inputs are (year, day of year); every calendar field derives from them
+        rng = {f: r for f, r in rng.items() if f not in rm.CAL_FIELDS}
+        rng = dict({"year_y": (1000, 9999), "doy": (1, 366)}, **rng)
+        calf = ["year_y", "doy"]
     args, pres = [], []
 
     def add_int(name, lo, h):
@@ -112,6 +119,9 @@ def wrapper(kind, pattern, hi, fixed, ranges_override=None):
                 add_bool(b)
             call = (f"c05.strings_step({old_vals}, {tag_expr}, {today_vals}, f_major, f_minor, f_patch, f_tagnum, f_pininc, "
                     f"f_pindate, newtag_i)")
+    if fulldate:
+        extra_pre = list(extra_pre) + ["c05.real_day(o_year_y, o_doy)"] + \
+            (["c05.real_day(c_year_y, c_doy)"] if kind == "numeric" else ["c05.real_day(t_year_y, t_doy)"])
     fixed_lines = "".join(f"{k} = {v!r}\n" for k, v in fixed.items())
     pre_lines = "".join(f"    pre: {p}\n" for p in ([" and ".join(pres)] if pres else []) + extra_pre)
     src = (
@@ -161,12 +171,21 @@ def obligations(tier):
             extra["exclude_final_tagnum"] = True
         passthru = {"f_major": False, "f_minor": True, "f_patch": False, "f_pininc": True}
         calf = [f for f in rm.CAL_FIELDS if f in fs]
+        if g["flavour"] == "fulldate":
+            calf = ["year_y", "doy"]
         mid = {f: (2020 if f.startswith("year") else 3) for f in calf}
         old_fix = {"o_" + f: v for f, v in mid.items()}
         today_fix = {"t_" + f: v for f, v in mid.items()}
         num_fix = {"o_" + f: 1 for f in _ranges(g, hi) if f not in rm.CAL_FIELDS}
         # (a) calendar stage: today / pinned / version in the future; flags handed on (symbolic, compared by identity)
-        if calf:
+        if calf and g["flavour"] == "fulldate":
+            # every calendar field derives from (year, day of year) on both sides: ~10 min per query, thorough tier only
+            if tier != "quick":
+                for pin in (False, True):
+                    fixed = dict(num_fix, tag_i=0, newtag_i=0, f_tagnum=False, outcome=2, f_pindate=pin)
+                    obs.append(Ob(f"L2a.guards_step.calendar[{pat}; pin-date {pin}]", "c05.py", "ob", _params(pat, extra), timeout=1800,
+                                  source=wrapper("guards", pat, hi, fixed), bounds="any two dates 1000..9999"))
+        elif calf:
             fixed = dict(num_fix, tag_i=0, newtag_i=0, f_tagnum=False, outcome=2)
             obs.append(Ob(f"L2a.guards_step.calendar[{pat}]", "c05.py", "ob", _params(pat, extra), timeout=t,
                           source=wrapper("guards", pat, hi, fixed), bounds="old and today's calendar fields, --pin-date, 4 pass-through flags symbolic"))
